@@ -133,6 +133,8 @@ Proof.
   - split; cbn; apply tstep_lf.
   - apply sstep_same; reflexivity.
   - apply sstep_tp_refresh.
+  - unfold resume. destruct (warn s); [apply sstep_same; reflexivity|].
+    eapply sstep_trans; [apply sstep_tp_refresh|apply sstep_update_delta].
 Qed.
 
 (** ---- invariants of a table ---- *)
@@ -286,7 +288,7 @@ Proof. unfold integrity_hyp, shyp, tb_hyp. rewrite andb_true_iff. reflexivity. Q
 Lemma shyp_step_back c s e : shyp c (step c s e) -> shyp c s.
 Proof.
   destruct (is_mut e) eqn:He.
-  - destruct e as [svc k m| | | | |]; try discriminate. destruct svc; cbn [step]; intros [H1 H2]; split; cbn in *;
+  - destruct e as [svc k m| | | | | |]; try discriminate. destruct svc; cbn [step]; intros [H1 H2]; split; cbn in *;
       first [assumption | eapply tb_hyp_mut; eassumption].
   - intros [H1 H2]. destruct (sstep_step c s e He) as [[Hb1 _] [Hb2 _]].
     unfold tb_hyp in *. rewrite Hb1 in H1. rewrite Hb2 in H2. split; assumption.
@@ -301,7 +303,7 @@ Qed.
 Lemma step_whole c s e : shyp c s -> swhole c s -> swhole c (step c s e).
 Proof.
   intros [Hh1 Hh2] [Hw1 Hw2]. destruct (is_mut e) eqn:He.
-  - destruct e as [svc k m| | | | |]; try discriminate. destruct svc; cbn [step]; split; cbn;
+  - destruct e as [svc k m| | | | | |]; try discriminate. destruct svc; cbn [step]; split; cbn;
       first [assumption | apply mut_tbl_whole; assumption].
   - destruct (sstep_step c s e He) as [H1 H2]. split; eapply tstep_whole; eassumption.
 Qed.
@@ -309,7 +311,7 @@ Qed.
 Lemma step_le c s e : sle s -> sle (step c s e).
 Proof.
   intros [Hw1 Hw2]. destruct (is_mut e) eqn:He.
-  - destruct e as [svc k m| | | | |]; try discriminate. destruct svc; cbn [step]; split; cbn;
+  - destruct e as [svc k m| | | | | |]; try discriminate. destruct svc; cbn [step]; split; cbn;
       first [assumption | apply mut_tbl_le; assumption].
   - destruct (sstep_step c s e He) as [H1 H2]. split; eapply tstep_le; eassumption.
 Qed.
@@ -323,7 +325,7 @@ Proof. apply Forall2_refl. intros; unfold ver_le; lia. Qed.
 Lemma step_mono c s e : sle s -> smono s (step c s e).
 Proof.
   intros [Hw1 Hw2]. destruct (is_mut e) eqn:He.
-  - destruct e as [svc k m| | | | |]; try discriminate. destruct svc; cbn [step]; split; cbn; apply ver_le_refl.
+  - destruct e as [svc k m| | | | | |]; try discriminate. destruct svc; cbn [step]; split; cbn; apply ver_le_refl.
   - destruct (sstep_step c s e He) as [H1 H2]. split; eapply tstep_mono; eassumption.
 Qed.
 
